@@ -1,4 +1,3 @@
-use quote::ToTokens;
 use serde_rename_rule::RenameRule;
 use syn::Attribute;
 
@@ -17,14 +16,21 @@ impl SerdeParser {
 
         for attr in attrs {
             if attr.path().is_ident("serde") {
-                if let Ok(tokens) = syn::parse2::<syn::MetaList>(attr.meta.to_token_stream()) {
-                    let tokens_str = tokens.tokens.to_string();
-
-                    // Parse rename_all = "convention"
-                    if let Some(convention) = self.parse_rename_all(&tokens_str) {
-                        result.rename_all = Some(convention);
+                // Walk the meta items (`rename_all = "..."`, `default`, `tag = ".."`, ...) instead of
+                // searching the stringified tokens, so text inside other values is never mistaken
+                // for an attribute. A malformed attribute keeps what was recognised before the error.
+                let _ = attr.parse_nested_meta(|meta| {
+                    if meta.path.is_ident("rename_all") {
+                        if let Some(convention) = Self::string_value(&meta)? {
+                            if let Ok(rule) = RenameRule::from_rename_all_str(&convention) {
+                                result.rename_all = Some(rule);
+                            }
+                        }
+                    } else {
+                        Self::skip_value(&meta)?;
                     }
-                }
+                    Ok(())
+                });
             }
         }
 
@@ -40,27 +46,69 @@ impl SerdeParser {
 
         for attr in attrs {
             if attr.path().is_ident("serde") {
-                if let Ok(tokens) = syn::parse2::<syn::MetaList>(attr.meta.to_token_stream()) {
-                    let tokens_str = tokens.tokens.to_string();
-
-                    // Check for skip flag
-                    if tokens_str.contains("skip") && !tokens_str.contains("skip_serializing") {
+                let _ = attr.parse_nested_meta(|meta| {
+                    if meta.path.is_ident("skip") {
+                        // Only a bare `skip` removes the field; `skip_serializing_if`,
+                        // `skip_deserializing`, `default = "skip_x"` etc. do not
                         result.skip = true;
+                        Self::skip_value(&meta)?;
+                    } else if meta.path.is_ident("rename") {
+                        if let Some(rename) = Self::string_value(&meta)? {
+                            result.rename = Some(rename);
+                        }
+                    } else {
+                        Self::skip_value(&meta)?;
                     }
-
-                    // Parse rename = "value"
-                    if let Some(rename) = self.parse_rename(&tokens_str) {
-                        result.rename = Some(rename);
-                    }
-                }
+                    Ok(())
+                });
             }
         }
 
         result
     }
 
+    /// Value of `key = "value"` or, for `key(serialize = "a", deserialize = "b")`, the name
+    /// used when serializing
+    fn string_value(meta: &syn::meta::ParseNestedMeta) -> syn::Result<Option<String>> {
+        if meta.input.peek(syn::Token![=]) {
+            let expr: syn::Expr = meta.value()?.parse()?;
+            if let syn::Expr::Lit(syn::ExprLit {
+                lit: syn::Lit::Str(value),
+                ..
+            }) = expr
+            {
+                return Ok(Some(value.value()));
+            }
+            return Ok(None);
+        }
+        let mut serialize_name = None;
+        if meta.input.peek(syn::token::Paren) {
+            meta.parse_nested_meta(|inner| {
+                let value: syn::LitStr = inner.value()?.parse()?;
+                if inner.path.is_ident("serialize") {
+                    serialize_name = Some(value.value());
+                }
+                Ok(())
+            })?;
+        }
+        Ok(serialize_name)
+    }
+
+    /// Consume the value of a meta item this parser is not interested in
+    fn skip_value(meta: &syn::meta::ParseNestedMeta) -> syn::Result<()> {
+        if meta.input.peek(syn::Token![=]) {
+            let _: syn::Expr = meta.value()?.parse()?;
+        } else if meta.input.peek(syn::token::Paren) {
+            let content;
+            syn::parenthesized!(content in meta.input);
+            let _: proc_macro2::TokenStream = content.parse()?;
+        }
+        Ok(())
+    }
+
     /// Parse rename_all value like "camelCase", "snake_case", "PascalCase", etc. to
     /// find a matching `serde_rename_rule::RenameRule`.
+    #[allow(dead_code)]
     fn parse_rename_all(&self, tokens: &str) -> Option<RenameRule> {
         if let Some(start) = tokens.find("rename_all") {
             if let Some(eq_pos) = tokens[start..].find('=') {
@@ -80,6 +128,7 @@ impl SerdeParser {
     }
 
     /// Parse rename value from field attribute
+    #[allow(dead_code)]
     fn parse_rename(&self, tokens: &str) -> Option<String> {
         // Look for "rename" but not "rename_all"
         let mut search_start = 0;
